@@ -52,6 +52,8 @@ def flavours(repo: Repo) -> Dict[str, Tuple[ClassInfo, List[ClassInfo], List[Cla
         if r is None:
             raise AnalysisError(f"{c.name}.instrs not found")
         rets = A.returns(r[1])
+        if not rets and (r[0] is base or any((dotted(d_) or "").split(".")[-1] == "abstractmethod" for d_ in r[1].decorator_list)):
+            continue  # an intermediate class that still inherits the abstract `instrs`: not a flavour of its own
         if len(rets) != 1:
             raise AnalysisError(f"{c.name}.instrs has {len(rets)} returns")
         out[c.name] = (c, core, _class_list(repo, r[0].module, rets[0].value))
